@@ -129,12 +129,89 @@ Offset(st, s, z, unit) ==
   ELSE IF unit = 8 THEN ByteSt(SubSeq(st.u, s + 1, Min2(s + z, Len(st.u))))
   ELSE IF s + z <= st.n THEN BitSt(BitField(st.x, s, z), z) ELSE NullSt
 
+---------------------------------------------------------------------------
+(* Static ranges and constant folding.
+
+   Named modelling decision (the documentation is silent; the code's choice is modelled because
+   it is observable): an integer expression whose *statically inferred* range is a single value is
+   a compile-time constant, and is known -- with that value -- no matter which bytes are available.
+   The range is the documented one ($upper_bound / $lower_bound): the interval of the operand types
+   pushed through + - * $max ?: ; a field contributes the range of its physical type ([requires]
+   does not narrow it), a parameter the range of its declared type.  A `?:` whose condition is a
+   literal/constant-only boolean takes the range of the chosen branch, otherwise the hull of both.
+   Ranges that would leave TLC's integers saturate and are then never treated as a single value. *)
+
+RBound == 2 ^ 29
+NoRng == [ok |-> FALSE, lo |-> 0, hi |-> 0]
+Rg(lo, hi) == IF lo < -RBound \/ hi > RBound THEN NoRng ELSE [ok |-> TRUE, lo |-> lo, hi |-> hi]
+Abs(x) == IF x < 0 THEN -x ELSE x
+MulSafe(a, b) == a = 0 \/ b = 0 \/ Abs(a) <= RBound \div Abs(b)
+
+ScalarRange(st, w) ==
+  CASE st = "UInt" -> Rg(0, 2 ^ w - 1)
+    [] st = "Int" -> Rg(-(2 ^ (w - 1)), 2 ^ (w - 1) - 1)
+    [] st = "Bcd" -> Rg(0, (10 ^ (w \div 4)) * (2 ^ (w % 4)) - 1)
+    [] OTHER -> NoRng
+
+RECURSIVE SField(_, _), SConst(_), Rng(_, _), CondConst(_, _)
+
+(* the field a path designates, statically: [t: type that declares it, f: the field] *)
+SField(tn, p) ==
+  LET fs == Prog.types[tn].fields
+      f == fs[CHOOSE i \in 1..Len(fs) : fs[i].name = p[1]]
+  IN IF f.kind = "virt" /\ f.alias # <<>> THEN SField(tn, f.alias \o Tail(p))
+     ELSE IF Len(p) = 1 THEN [t |-> tn, f |-> f]
+     ELSE SField(f.type, Tail(p))
+
+(* structural constant value of an expression (literals and operators over them): [k, v] *)
+SConst(e) ==
+  CASE e.k \in {"int", "bool", "enum"} -> Known(e.v)
+    [] e.k = "op" -> ApplyOp(e.fn, [i \in 1..Len(e.args) |-> SConst(e.args[i])])
+    [] OTHER -> Unknown
+
+(* is the boolean expression c a compile-time constant?  [k, v] *)
+CondConst(tn, c) ==
+  CASE c.k = "bool" -> Known(c.v)
+    [] c.k = "present" -> LET sf == SField(tn, c.path) IN
+                            IF sf.f.kind = "virt" THEN Known(TRUE) ELSE CondConst(sf.t, sf.f.cond)
+    [] c.k = "op" /\ c.fn # "?:" ->
+         IF \A i \in 1..Len(c.args) : SConst(c.args[i]).k THEN SConst(c) ELSE Unknown
+    [] OTHER -> Unknown
+
+Rng(tn, e) ==
+  CASE e.k = "int" -> Rg(e.v, e.v)
+    [] e.k = "par" -> LET p == Prog.types[tn].params[e.i] IN
+                       IF p.signed THEN Rg(-(2 ^ (p.bits - 1)), 2 ^ (p.bits - 1) - 1) ELSE Rg(0, 2 ^ p.bits - 1)
+    [] e.k = "ref" -> LET sf == SField(tn, e.path) IN
+                       IF sf.f.kind = "scalar" THEN ScalarRange(sf.f.st, sf.f.w)
+                       ELSE IF sf.f.kind = "virt" /\ sf.f.vt = "int" THEN Rng(sf.t, sf.f.value)
+                       ELSE NoRng
+    [] e.k = "op" /\ e.fn \in {"+", "-", "*", "max", "?:"} ->
+         LET r == [i \in 1..Len(e.args) |-> Rng(tn, e.args[i])] IN
+         (CASE e.fn = "?:" ->
+                LET c == CondConst(tn, e.args[1]) IN
+                IF c.k THEN (IF c.v THEN r[2] ELSE r[3])
+                ELSE IF r[2].ok /\ r[3].ok THEN Rg(Min2(r[2].lo, r[3].lo), Max2(r[2].hi, r[3].hi)) ELSE NoRng
+           [] ~(\A i \in 1..Len(r) : r[i].ok) -> NoRng
+           [] e.fn = "+" -> Rg(r[1].lo + r[2].lo, r[1].hi + r[2].hi)
+           [] e.fn = "-" -> Rg(r[1].lo - r[2].hi, r[1].hi - r[2].lo)
+           [] e.fn = "*" ->
+                IF \A a \in {r[1].lo, r[1].hi}, b \in {r[2].lo, r[2].hi} : MulSafe(a, b)
+                THEN LET c == {a * b : a \in {r[1].lo, r[1].hi}, b \in {r[2].lo, r[2].hi}} IN
+                     Rg(CHOOSE x \in c : \A y \in c : x <= y, CHOOSE x \in c : \A y \in c : x >= y)
+                ELSE NoRng
+           [] e.fn = "max" -> Rg(MaxOfSeq([i \in 1..Len(r) |-> r[i].lo]), MaxOfSeq([i \in 1..Len(r) |-> r[i].hi])))
+    [] OTHER -> NoRng
+
+Folded(tn, e) == LET r == Rng(tn, e) IN r.ok /\ r.lo = r.hi
+
 RECURSIVE Eval(_, _, _), Has(_, _), Stor(_, _), PathVal(_, _), FVal(_, _), FOk(_, _),
           FComplete(_, _), SubV(_, _), VOk(_), VSize(_), VComplete(_), ElemOk(_, _, _),
           ElemSt(_, _, _), ElemV(_, _, _), PathField(_, _), PathView(_, _)
 
 (* value of expression e in view v; `this` is the Maybe value of the field under [requires] *)
 Eval(v, e, this) ==
+  IF e.k \in {"op", "ref"} /\ Folded(v.t, e) THEN Known(Rng(v.t, e).lo) ELSE
   CASE e.k = "int" -> Known(e.v)
     [] e.k = "bool" -> Known(e.v)
     [] e.k = "enum" -> Known(e.v)
@@ -244,15 +321,17 @@ FVal(v, f) ==
 (* intrinsic size: the largest end of any present physical field (0 if none); unknown as soon as the
    presence of a field, or the end of a present field, cannot be determined *)
 PhysFields(v) == SelectSeq(TypeOf(v).fields, LAMBDA f : f.kind # "virt")
-EndOf(v, f) ==
-  LET h == Has(v, f) IN
-  IF ~h.k THEN Unknown
-  ELSE IF ~h.v THEN Known(0)
-  ELSE ApplyOp("+", <<Eval(v, f.start, Unknown), Eval(v, f.size, Unknown)>>)
-VSize(v) ==
-  LET fs == PhysFields(v)
-      ends == [i \in 1..Len(fs) |-> EndOf(v, fs[i])]
-  IN IF AllK(ends) THEN Known(MaxOfSeq(<<0>> \o [i \in 1..Len(ends) |-> ends[i].v])) ELSE Unknown
+(* ... written as the expression $max(0, cond_1 ? start_1 + size_1 : 0, ...) so that the constant-folding
+   rule above applies to it like to any other expression: a structure whose size cannot vary knows its
+   size even when the bytes that decide a condition are missing *)
+IntE(x) == [k |-> "int", v |-> x]
+SizeExpr(tn) ==
+  LET fs == SelectSeq(Prog.types[tn].fields, LAMBDA f : f.kind # "virt") IN
+  [k |-> "op", fn |-> "max",
+   args |-> <<IntE(0)>> \o [i \in 1..Len(fs) |->
+              [k |-> "op", fn |-> "?:",
+               args |-> <<fs[i].cond, [k |-> "op", fn |-> "+", args |-> <<fs[i].start, fs[i].size>>], IntE(0)>>]]]
+VSize(v) == Eval(v, SizeExpr(v.t), Unknown)
 
 VComplete(v) == LET s == VSize(v) IN v.st.ok /\ s.k /\ StLen(v.st, Unit(v)) >= s.v
 
